@@ -21,7 +21,8 @@ PROP_FILES = ["Strengths/Props/C16.lean"]
 GEN_GROUPS = ["CoarsePy", "IndexPy", "Units"]
 RULE = ("grids w,h,d in 1..4 (1-D, 2-D, 3-D; size <= 36), 1..3 environments, cell edge h in {1/2,1,3/2,2,3} with V = h^3 given in a "
         "units system that may differ from the grid's; index maps: random environment-respecting partitions (non-contiguous groups, "
-        "singletons), block maps, identity, one group per environment, each with 0..several dropped cells of several environments; "
+        "singletons), block maps, identity, one group per environment, maps with more than 257 groups on 384..420-cell grids (group "
+        "indices computed at run time, groups of index >= 257 with internal faces), each with 0..several dropped cells of several environments; "
         "invalid stream: wrong length, missing index, entry < -1, all dropped, group mixing environments, non-int entries, periodic "
         "grid; states: integers / fractions / zeros given in the system's or in their own quantity unit, random 0/1 chemostat maps, "
         "1..3 species, random units systems; engine runs: identity map vs plain simulation (two species, chemostated entries) and "
@@ -233,6 +234,25 @@ def gen_case(rng, invalid=False, periodic=False):
                 periodic=per)
 
 
+def big_map_case(rng):
+    """a grid with more than 257 groups, group indices computed arithmetically (run-time integers, not literals): singletons
+    first, then pairs of x-neighbours, so that groups of index >= 257 have internal faces; a few dropped cells"""
+    shape = rng.choice([(20, 20, 1), (8, 8, 6), (10, 6, 7), (40, 10, 1)])
+    w, h, d = shape
+    n = w * h * d
+    nsingle = 2 * rng.randint(129, 140)                      # even, > 257: the pairs start on an even cell of a row of even width
+    envs = [(i // w) % 2 for i in range(n)]                  # environment by row: pairs never mix environments
+    im = [i if i < nsingle else nsingle + (i - nsingle) // 2 for i in range(n)]
+    for i in rng.sample(range(n), 3):
+        im[i] = -1
+    im = relabel(im)
+    im = [g + 0 for g in im]
+    usys = ("µm", "s", "molecule")
+    return dict(shape=shape, envs=envs, nenv=2, h=rng.choice(EDGES_H), gsys=usys, vsys=usys, ssys=usys, stsys=usys, ns=1, im=im,
+                kind="many-groups", state=[float(rng.randint(0, 9)) for _ in range(n)], chem=[1 if rng.random() < 0.1 else 0 for _ in range(n)],
+                periodic=None)
+
+
 def case_json(c):
     return {"shape": list(c["shape"]), "envs": c["envs"], "nenv": c["nenv"], "h": rstr(c["h"]), "gsys": list(c["gsys"]), "vsys": list(c["vsys"]),
             "ssys": list(c["ssys"]), "stsys": list(c.get("stsys", c["ssys"])), "ns": c["ns"], "im": [g if type(g) is int else repr(g) for g in c["im"]], "kind": c["kind"],
@@ -361,7 +381,9 @@ def oracle_cg(ctx, c, got, case):
     # edges
     pairs = [(min(i, j), max(i, j)) for i, j, _, _ in got["edges"]]
     if any(i == j for i, j, _, _ in got["edges"]):
-        ctx.violation(key0 + ":self-loop", "coarse graph has a self-loop", case, impl=pairs)
+        loops = sorted(set(i for i, j, _, _ in got["edges"] if i == j))
+        ctx.violation(key0 + ":self-loop", "coarse graph of %d groups has self-loops on groups %s (first: surface %s, distance %s)" % (
+            ng, loops[:8], *[(str(a), str(b)) for i, j, a, b in got["edges"] if i == j][0]), case, impl=loops[:50])
     if len(set(pairs)) != len(pairs):
         ctx.violation(key0 + ":duplicate-edge", "coarse graph has duplicate edges", case, impl=pairs)
     if set(pairs) != set(bf["edges"]):
@@ -526,6 +548,12 @@ def identity_runs(ctx, rng, count):
         envs = gen_envs(rng, n, nenv)
         nenv = max(envs) + 1
         DA = rng.choice([1, 2]) if diffuse else 0
+        # script units: the default, or (for the second Euler slot of the plan) a system in which a diffusion coefficient of
+        # about 1 µm2/s becomes a very small number (space m / km, time s / µs / h)
+        susys = None
+        if option == "euler" and policy == "on_t_sample" and k % len(plan) == len(plan) - 1:
+            susys = rng.choice([("m", "s"), ("km", "s"), ("m", "µs"), ("km", "h"), ("m", "ms")])
+            DA = rng.choice([1, 0.5, 0.25])
         species = [{"label": "A", "density": {("e%d" % e): rng.randint(5, 40) for e in range(nenv)}, "D": DA},
                    {"label": "B", "density": {("e%d" % e): rng.randint(0, 10) for e in range(nenv)},
                     "D": {("e%d" % e): (rng.choice([0, 1]) if diffuse else 0) for e in range(nenv)}}]
@@ -549,10 +577,11 @@ def identity_runs(ctx, rng, count):
             ts = [0.0, dt * rng.randint(2, 6)]
         seed = rng.randint(1, 10 ** 6)
         case = {"identity": {"system": d, "chem": chem, "option": option, "t_sample": ts, "seed": seed, "time_step": dt, "diffuse": diffuse,
-                             "policy": policy}}
+                             "policy": policy, "script_units": susys}}
+        ctx.count("identity_script_units_" + ("default" if susys is None else "%s_%s" % susys))
         ctx.count("identity_with_chemostats" if any(chem) else "identity_without_chemostats")
         ctx.count("identity_policy_" + policy)
-        ok, detail = identity_compare(system, option, ts, seed, dt, diffuse, policy)
+        ok, detail = identity_compare(system, option, ts, seed, dt, diffuse, policy, susys)
         ctx.case(("identity", option, diffuse, policy, shape, tuple(envs), seed), nontrivial=n > 1)
         ctx.count("identity_%s_%s" % (option, "diffusion" if diffuse else "reaction_only"))
         if not ok:
@@ -580,16 +609,22 @@ def unsafe_graph(system, im):
     return None
 
 
-def identity_compare(system, option, ts, seed, dt, diffuse, policy="on_t_sample"):
-    from strengths import simulate
+def identity_compare(system, option, ts, seed, dt, diffuse, policy="on_t_sample", susys=None):
+    from strengths import simulate, UnitValue, UnitArray, UnitsSystem
+    kw = {}
+    if susys:
+        # times stay what they were (given with their unit); only the units system the script hands to the engine changes
+        kw = {"units_system": UnitsSystem(space=susys[0], time=susys[1])}
+        dt = UnitValue(dt, "s")
+        ts = UnitArray(list(ts), "s")
     n = system.space.size()
     why = unsafe_graph(system, list(range(n)))
     if why:
         return False, {"why": "identity coarse-graining is not a usable graph: " + why}
     try:
-        plain = simulate(system, t_sample=ts, engine=common.load_engine(option), time_step=dt, rng_seed=seed, sampling_policy=policy)
+        plain = simulate(system, t_sample=ts, engine=common.load_engine(option), time_step=dt, rng_seed=seed, sampling_policy=policy, **kw)
         cgd = simulate(system, t_sample=ts, engine=common.load_engine(option), time_step=dt, rng_seed=seed, sampling_policy=policy,
-                       cgmap=list(range(n)))
+                       cgmap=list(range(n)), **kw)
     except Exception as e:  # noqa
         return False, {"why": "raised %r" % (e,)}
     a = [float(v) for v in np.asarray(plain.data.value).ravel()]
@@ -722,6 +757,8 @@ def run(ctx):
                 ssys=("µm", "s", "molecule"), stsys=("µm", "s", "molecule"), ns=1, kind="corpus", state=[4.0, 6.0, 4.0, 6.0], chem=[0, 0, 0, 0], periodic=None)
     for im in ([-1, -1, 0, 1], [-1, 0, -1, 0], [0, -1, 1, -1], [-1, 1, 0, -1], [0, 1, 2, 3]):
         cases.insert(0, dict(base, im=im))
+    for _ in range(ctx.n(2, 12)):
+        cases.insert(rng.randrange(len(cases)), big_map_case(rng))
     batch = 400
     for b0 in range(0, len(cases), batch):
         chunk = cases[b0:b0 + batch]
@@ -873,7 +910,7 @@ def replay(ctx, rec):
         if d.get("chem"):
             system.chemostats = list(d["chem"])
         ok, det = identity_compare(system, d["option"], d["t_sample"], d["seed"], d["time_step"], d.get("diffuse", True),
-                                   d.get("policy", "on_t_sample"))
+                                   d.get("policy", "on_t_sample"), d.get("script_units"))
         return ok, det
     c = dict(case["sys"])
     c["h"] = Fraction(c["h"])
